@@ -83,9 +83,10 @@ type SmellMethodTruth struct {
 	Name              string
 	Form              string // class | static | abstract | iface-abstract | iface-default | iface-static
 	GetterSetter      bool
-	AccessorNamed     bool // an ordinary method (parameters, statements) that carries a get…/set… name
-	HeadSplit         bool // interface method whose modifiers / type parameters stand on StartLine, return type and name on the next line
-	TypedLambdaParams int  // explicitly typed lambda parameters in the body (not parameters of the method)
+	AccessorNamed     bool   // an ordinary method (parameters, statements) that carries a get…/set… name
+	HeadSplit         bool   // keyword modifiers / type parameters stand on StartLine, return type and name on the next line
+	HeadFirst         string // first token of that upper line (default, static, public …, or "type-parameters")
+	TypedLambdaParams int    // explicitly typed lambda parameters in the body (not parameters of the method)
 	Params            int
 	Varargs           bool // the last parameter is a variable-arity parameter (it is counted in Params)
 	Generic           bool // the method declares a type parameter of its own
@@ -143,7 +144,7 @@ func smellFormCtx(m *SmellMethodTruth) string {
 		s += "/accessor-named-method"
 	}
 	if m.HeadSplit {
-		s += "/modifiers-on-previous-line"
+		s += "/modifiers-on-previous-line(first=" + m.HeadFirst + ")"
 	}
 	return s
 }
@@ -345,6 +346,12 @@ func smellSpuriousCtx(classes []SmellClassTruth, f SmellFinding) string {
 			return "params=" + smellParamCtx(m)
 		case SmellRepeatedSw:
 			return "ifs=" + smellOff(m.TopIfs, SmellRepeatedT) + ",switches=" + smellOff(m.TopSwitches, SmellRepeatedT) + smellFormCtx(m)
+		}
+	}
+	for mi := range c.Methods {
+		m := &c.Methods[mi]
+		if m.HeadSplit && m.StartLine+1 == ln {
+			return "line-of-return-type-not-of-declaration-start" + smellFormCtx(m)
 		}
 	}
 	return "no-method-starts-there"
